@@ -401,3 +401,147 @@ def long_cycle_graphs():
         out['ring%d-with-exit' % k] = g
     out['path5'] = {i: ([i + 1] if i < 4 else []) for i in range(5)}
     return out
+
+
+# ------------------------------------------------------------------ the decision table family (coq/C12/Model.v: table_build / table_eval)
+POLICIES = [('UNIQUE', None, 'Unique'), ('ANY', None, 'Any'), ('PRIORITY', None, 'Priority'), ('FIRST', None, 'First'), ('RULE ORDER', None, 'RuleOrder'),
+            ('OUTPUT ORDER', None, 'OutputOrder'), ('COLLECT', None, 'Collect AList'), ('COLLECT', 'COUNT', 'Collect ACount'), ('COLLECT', 'SUM', 'Collect ASum'),
+            ('COLLECT', 'MIN', 'Collect AMin'), ('COLLECT', 'MAX', 'Collect AMax')]
+# the first input entry of a rule decides whether the rule matches under the three contexts {i0: 10}, {i0: 20}, {} (i0 = null)
+ENTRY_KINDS = {'-': (True, True, True), '10': (True, False, False), '20': (False, True, False), '999': (False, False, False)}
+TABLE_CONTEXTS = ['{i0: 10}', '{i0: 20}', '{}']
+
+
+def table_xml(t):
+    """t = dict(policy=index into POLICIES, n_in, outs=[(has_name, [output values], default or None)], rules=[(n_input_entries, kind, [output entry values])])"""
+    pol, agg, _ = POLICIES[t['policy']]
+    s = '    <decisionTable hitPolicy="%s"%s>\n' % (pol, ' aggregation="%s"' % agg if agg else '')
+    for k in range(t['n_in']):
+        s += '      <input><inputExpression typeRef="number"><text>i0</text></inputExpression></input>\n'
+    for k, (named, ovs, dflt) in enumerate(t['outs']):
+        s += '      <output%s>' % (' name="o%d"' % k if named else '')
+        if ovs:
+            s += '<outputValues><text>%s</text></outputValues>' % ','.join(str(v) for v in ovs)
+        if dflt is not None:
+            s += '<defaultOutputEntry><text>%d</text></defaultOutputEntry>' % dflt
+        s += '</output>\n'
+    for a, kind, vs in t['rules']:
+        s += '      <rule>' + ''.join('<inputEntry><text>%s</text></inputEntry>' % (kind if i == 0 else '-') for i in range(a))
+        s += ''.join('<outputEntry><text>%d</text></outputEntry>' % v for v in vs) + '</rule>\n'
+    return s + '    </decisionTable>\n'
+
+
+def table_term(t):
+    def lst(xs):
+        return '[' + '; '.join(xs) + ']'
+    outs = lst('mk_out %s %s %s' % ('true' if n else 'false', lst(str(v) for v in ovs), '(Some %d)' % d if d is not None else 'None') for n, ovs, d in t['outs'])
+    rules = lst('mk_rule %d %s' % (a, lst(str(v) for v in vs)) for a, _, vs in t['rules'])
+    return '(mk_table (%s) %d %s %s)' % (POLICIES[t['policy']][2], t['n_in'], outs, rules)
+
+
+def table_matches(t, c):
+    """which rules match under context number c: a rule without input entries always matches"""
+    return [True if a == 0 else ENTRY_KINDS[kind][c] for a, kind, _ in t['rules']]
+
+
+def table_case(t, label):
+    """(label, xml, coq term: (table_build t, [table_eval t m for the three contexts]), table)"""
+    inp = '  <inputData name="i0" id="_i0"><variable name="i0" typeRef="number"/></inputData>\n'
+    xml = HDR + inp + gen_decision(0, [('i', 0)], '', table=table_xml(t)) + '</definitions>\n'
+    tt = table_term(t)
+    evs = '; '.join('table_eval %s [%s]' % (tt, '; '.join('true' if b else 'false' for b in table_matches(t, c))) for c in range(3))
+    return label, xml, '(table_build %s, [%s])' % (tt, evs), t
+
+
+def table_family(rng, n_pairs, n_random):
+    """all hit policies x {0,1} input clauses x {0,1,2} output clauses x ONE rule with {0,1,2} output entries x {matches, does not match} (exhaustive);
+    the same with TWO rules (every combination of entry counts and match kinds): n_pairs sampled (None = all);
+    n_random tables with 1..4 rules, 0..2 input and 0..3 output clauses, names on some clauses only, output values, default output entries,
+    rules with one input entry less / more"""
+    out = []
+
+    def outs_for(n_out):
+        return [(n_out > 1, [], None) for _ in range(n_out)]
+    for p in range(len(POLICIES)):
+        for n_in in (0, 1):
+            for n_out in (0, 1, 2):
+                for e in (0, 1, 2):
+                    for kind in (('-', '999') if n_in else ('-',)):
+                        t = dict(policy=p, n_in=n_in, outs=outs_for(n_out), rules=[(n_in, kind, [e + 1 + k for k in range(e)])])
+                        out.append(table_case(t, 'table %s in%d out%d one rule with %d output entries %s' % (POLICIES[p][2], n_in, n_out, e, kind)))
+    pairs = []
+    for p in range(len(POLICIES)):
+        for n_out in (0, 1, 2):
+            for e1 in (0, 1, 2):
+                for k1 in ENTRY_KINDS:
+                    for e2 in (0, 1, 2):
+                        for k2 in ENTRY_KINDS:
+                            pairs.append((p, n_out, e1, k1, e2, k2))
+    if n_pairs is not None and n_pairs < len(pairs):
+        pairs = rng.sample(pairs, n_pairs)
+    for p, n_out, e1, k1, e2, k2 in pairs:
+        t = dict(policy=p, n_in=1, outs=outs_for(n_out), rules=[(1, k1, [1 + k for k in range(e1)]), (1, k2, [1 + (k + e1) % 2 for k in range(e2)])])
+        out.append(table_case(t, 'table %s in1 out%d two rules with %d/%d output entries %s/%s' % (POLICIES[p][2], n_out, e1, e2, k1, k2)))
+    for i in range(n_random):
+        p = rng.randrange(len(POLICIES))
+        n_in, n_out = rng.choice([0, 1, 1, 2]), rng.choice([0, 0, 1, 1, 2, 2, 3])
+        outs = []
+        naming = rng.choice(['all', 'all', 'none', 'some'])
+        for k in range(n_out):
+            ovs = rng.sample([1, 2, 3, 4], rng.choice([2, 3, 4])) if rng.random() < 0.4 else []
+            dflt = (rng.choice(ovs) if ovs else rng.choice([1, 2, 3, 4])) if rng.random() < 0.4 else None
+            outs.append((naming == 'all' or (naming == 'some' and rng.random() < 0.5), ovs, dflt))
+        rules = []
+        odd = rng.random() < 0.25       # some rule disagrees with the clauses
+        for r in range(rng.choice([1, 2, 2, 3, 4])):
+            a, b = n_in, n_out
+            if odd and rng.random() < 0.5:
+                a = max(0, a + rng.choice([-1, 1]))
+            if odd and rng.random() < 0.5:
+                b = max(0, b + rng.choice([-1, 1, -2]))
+            vs = [rng.choice(outs[k][1]) if k < n_out and outs[k][1] else rng.choice([1, 1, 2, 3]) for k in range(b)]
+            rules.append((a, rng.choice(list(ENTRY_KINDS)), vs))
+        t = dict(policy=p, n_in=n_in, outs=outs, rules=rules)
+        out.append(table_case(t, 'table %s random #%d: %s' % (POLICIES[p][2], i, table_term(t))))
+    return out
+
+
+def table_expected(term, t):
+    """the value of the Coq model (parsed `Got (One r)` / `Got (Many rs)` / `EvalPanic s`) as the canonical value of the harness; ('panic', site) for a panic"""
+    def name_of(x):
+        return getattr(x, 'name', None)
+
+    def res(r):
+        n = name_of(r)
+        if n == 'RNull':
+            return None
+        if n == 'RNum':
+            return ('num', r.args[0])
+        if n == 'RCtx':
+            names = ['o%d' % k for k, o in enumerate(t['outs']) if o[0]]
+            es = r.args[0]
+            if len(es) != len(names):
+                return ('bad-context', len(es), len(names))
+            return ('ctx', sorted((nm, (('num', e.args[0]) if name_of(e) == 'Some' else None)) for nm, e in zip(names, es)))
+        return ('?', str(r))
+    if name_of(term) == 'EvalPanic':
+        return ('panic', term.args[0])
+    v = term.args[0]
+    if name_of(v) == 'One':
+        return res(v.args[0])
+    return ('list', [res(x) for x in v.args[0]])
+
+
+def table_observed(v):
+    """the canonical value of the harness in the same form"""
+    from decimal import Decimal
+    if v is None:
+        return None
+    if isinstance(v, dict) and 'p' in v:
+        d = Decimal(v['p'])
+        return ('num', int(d)) if d == d.to_integral_value() else ('num', str(d))
+    if isinstance(v, dict) and 'c' in v:
+        return ('ctx', sorted((k, table_observed(x)) for k, x in v['c']))
+    if isinstance(v, list):
+        return ('list', [table_observed(x) for x in v])
+    return ('?', str(v))
